@@ -404,6 +404,33 @@ def hasEvidence (st : ReplicaSt) (v : Nat) : Bool :=
         | _ => []))
    decide (q ≤ ids.length))
 
+/-- a quorum of distinct replicas really signed a block of view EXACTLY `w`, a timeout for view `w`, or
+(aggregate rule) a timeout message for view `w`: what a certificate of view `w` is made of.  Since
+`EnterViewAfter` a replica enters view `w + 1` only on a certificate of view exactly `w`. -/
+def hasEvidenceAt (st : ReplicaSt) (w : Nat) : Bool :=
+  let cs := st.w.c
+  let q := cs.cfg.quorum
+  (cs.blocks.any fun p => p.2.view == w && decide (q ≤ (genuineSigners cs (blkMsg p.2.hash)).length)) ||
+  decide (q ≤ (genuineSigners cs (viewMsg w)).length) ||
+  (let ids := dedupNat ((cs.truth.filterMap fun p =>
+      match splitChar ':' p.2.msg with
+      | "tmo" :: id :: tv :: _ => if id.toNat? == some p.2.signer && tv.toNat? == some w then some p.2.signer else none
+      | _ => none) ++ (cs.sigs.flatMap fun p => match p.2 with
+        | .bls atoms _ _ => atoms.filterMap fun a => match splitChar ':' a.msg with
+          | "tmo" :: id :: tv :: _ => if id.toNat? == some a.signer && tv.toNat? == some w then some a.signer else none
+          | _ => none
+        | _ => []))
+   decide (q ≤ ids.length))
+
+/-- the view-change signals of one step are consistent with the move `old → new`: strictly increasing, all
+above the old view, the last one is the new view; none iff the view did not change (one signal per ENTERED
+view — `EnterViewAfter` may jump over views, which are then neither entered nor signalled) -/
+def vcsConsistent (old new : Nat) (vcs : List Nat) : Bool :=
+  (vcs.zip (vcs.drop 1)).all (fun p => decide (p.1 < p.2)) && vcs.all (fun v => decide (old < v)) &&
+  (match vcs.getLast? with
+   | none => new == old
+   | some l => l == new)
+
 def stripParen (pre : String) (t : String) : Option String :=
   if t.startsWith pre && t.endsWith ")" then some (String.ofList ((t.toList.drop pre.length).dropLast)) else none
 
@@ -478,10 +505,10 @@ def replicaOracleStep (o : ReplicaOr) (toks : List String) : ReplicaOr × String
   else if view < o2.view then (o3, s!"fail view-decreased {o2.view} -> {view}")
   else if hqView < o2.hqcView then (o3, s!"fail hqc-decreased {o2.hqcView} -> {hqView}")
   else if comView < o2.committedView then (o3, s!"fail committed-decreased {o2.committedView} -> {comView}")
-  else if vcs != (List.range (view - o2.view)).map (fun i => o2.view + 1 + i) then
+  else if !vcsConsistent o2.view view vcs then
     (o3, s!"fail view-change-signalling view {o2.view} -> {view} but view change events {natList vcs}")
-  else if (List.range (view - o2.view)).any (fun i => !hasEvidence st' (o2.view + i)) then
-    (o3, s!"fail view-advance-without-evidence left view {o2.view} (now {view}) although no quorum signed a block or timeout of such a view")
+  else if vcs.any (fun e => !hasEvidenceAt st' (e - 1)) then
+    (o3, s!"fail view-advance-without-evidence left view {o2.view} (now {view}, entered {natList vcs}) although no quorum signed a block or timeout of the view before an entered view")
   else if hqView > o2.hqcView && !(match blockOf st' hqName with
       | some b => b.view == hqView && decide (cs.cfg.quorum ≤ (genuineSigners cs (blkMsg b.hash)).length)
       | none => false) then
